@@ -913,7 +913,7 @@ package gpbft
 // Decoding into a chain object that was used before must not leave its cached key behind: a non-empty decode starts from
 // a zero chain (empty key cache, Once not yet done) and then holds one tipset per decoded element, in order.
 //@ func (*ECChain).UnmarshalCBOR
-//@   property C14 C13 C05
+//@   property C14 C13 C05 C04
 //@   modifies auto
 //@   maypanic
 //@   ensures[a_non_empty_decode_resets_the_key_cache] result == nil && len(c.TipSets) > 0 && c.TipSets != old(c.TipSets) ==> c.keyLazyLoader.done.v == 0
@@ -1519,3 +1519,25 @@ package gpbft
 //@   maypanic
 //@   at loopback 1
 //@     before[only_committees_of_older_instances_are_dropped] forall(uint64(k), k >= instance ==> has(c.committees, k) == prev(has(c.committees, k)) && c.committees[k] == prev(c.committees[k]), trigger(has(c.committees, k)))
+
+// ---- progress is published and read as ONE snapshot (C05 "the verdict depends only on the message, the committee and
+// ---- the participant's current progress"): a single atomic store of a pointer to the whole progress value, a single load.
+//@ func (*atomicProgression).NotifyProgress
+//@   property C05 C07
+//@   inlined
+//@   modifies auto
+//@   maypanic
+//@   at Store 1
+//@     before[the_whole_progress_is_published_in_one_atomic_store] arg(0) == &a.progression && *arg(1) == instant
+//@   at return 0
+//@     before[and_nothing_else_is_written] dominatedBy(Store, 1) && !called(Store, 2)
+
+//@ func (*atomicProgression).Get
+//@   property C05 C07
+//@   inlined
+//@   modifies auto
+//@   maypanic
+//@   at Load 1
+//@     before[the_progress_is_read_with_one_atomic_load] arg(0) == &a.progression
+//@   at return 0
+//@     before[what_is_returned_is_that_one_snapshot_or_the_zero_progress] !called(Load, 2) && (res(Load, 1) != nil ==> arg(0) == *res(Load, 1))
